@@ -628,6 +628,13 @@ func (fc *flowCtx) hashableKnown(v ssa.Value, at ssa.Instruction) (bool, string)
 			if !truth {
 				continue
 			}
+			// a predicate helper that only answers true for comparable dynamic types
+			if call, isCall := c.(*ssa.Call); isCall {
+				if sc := call.Call.StaticCallee(); sc != nil && len(call.Call.Args) == 1 && hashablePredicate(sc) && fc.valEquiv(call.Call.Args[0], v, call, at, 0) {
+					return true
+				}
+				continue
+			}
 			ex, ok := c.(*ssa.Extract)
 			if !ok || ex.Index != 1 {
 				continue
@@ -746,4 +753,96 @@ func closureMayWrite(cf *ssa.Function, idx int, depth int) bool {
 		return true
 	}
 	return !onlyRead(cf.FreeVars[idx], 0)
+}
+
+// hashablePredicate: fn is func(x interface{}) bool and every return that may
+// yield true is reached only through successful comma-ok assertions (type
+// switch arms) of x to comparable non-interface types.
+var hashablePredCache = map[*ssa.Function]int{}
+
+func hashablePredicate(fn *ssa.Function) bool {
+	if r, ok := hashablePredCache[fn]; ok {
+		return r == 1
+	}
+	hashablePredCache[fn] = 2 // in progress: recursion answers no
+	res := func() bool {
+		if fn == nil || len(fn.Blocks) == 0 || len(fn.Params) != 1 || fn.Signature.Results().Len() != 1 {
+			return false
+		}
+		if _, isIface := fn.Params[0].Type().Underlying().(*types.Interface); !isIface {
+			return false
+		}
+		if b, ok := fn.Signature.Results().At(0).Type().Underlying().(*types.Basic); !ok || b.Kind() != types.Bool {
+			return false
+		}
+		fc := newFlowCtx(fn)
+		for _, b := range fn.Blocks {
+			ret, ok := b.Instrs[len(b.Instrs)-1].(*ssa.Return)
+			if !ok {
+				continue
+			}
+			rv := ret.Results[0]
+			if k, isC := rv.(*ssa.Const); isC && k.Value != nil && k.Value.Kind() == constant.Bool {
+				if !constant.BoolVal(k.Value) {
+					continue
+				}
+				if ok, _ := fc.hashableKnown(fn.Params[0], ret); !ok {
+					return false
+				}
+				continue
+			}
+			// the ok of a comma-ok assertion of the parameter to a comparable type
+			if ex, isEx := rv.(*ssa.Extract); isEx && ex.Index == 1 {
+				if ta, isTA := ex.Tuple.(*ssa.TypeAssert); isTA && ta.CommaOk && ta.X == ssa.Value(fn.Params[0]) {
+					if _, isIface := ta.AssertedType.Underlying().(*types.Interface); !isIface && types.Comparable(ta.AssertedType) {
+						continue
+					}
+				}
+			}
+			return false
+		}
+		return true
+	}()
+	if res {
+		hashablePredCache[fn] = 1
+	} else {
+		hashablePredCache[fn] = 0
+	}
+	return res
+}
+
+// constUpperBound: a dominating comparison idx < K (K constant) holds at `at`.
+func (fc *flowCtx) constUpperBound(idx ssa.Value, at ssa.Instruction) (int64, bool) {
+	for _, f := range factsAt(at.Block()) {
+		c, truth := normFact(f)
+		bo, ok := c.(*ssa.BinOp)
+		if !ok {
+			continue
+		}
+		l, r, op := bo.X, bo.Y, bo.Op
+		if !truth {
+			switch op {
+			case token.LSS:
+				op = token.GEQ
+			case token.GEQ:
+				op = token.LSS
+			case token.GTR:
+				op = token.LEQ
+			case token.LEQ:
+				op = token.GTR
+			default:
+				continue
+			}
+		}
+		if op == token.GTR {
+			l, r, op = r, l, token.LSS
+		}
+		if op != token.LSS || l != idx {
+			continue
+		}
+		if k, isC := constInt(r); isC {
+			return k, true
+		}
+	}
+	return 0, false
 }
